@@ -13,8 +13,7 @@ Rec == ndJsonDeserialize(IOEnv.TRACE)
 VARIABLE l
 Ev == Rec[l]
 IsEvent(e) == l <= Len(Rec) /\ Rec[l].event = e /\ l' = l + 1
-ToSet(s) == {s[i] : i \in 1..Len(s)}
-Sum(f, S) == LET RECURSIVE S2(_) S2(T) == IF T = {} THEN 0 ELSE LET x == CHOOSE x \in T : TRUE IN f[x] + S2(T \ {x}) IN S2(S)
+SumOver(f, S) == LET RECURSIVE S2(_) S2(T) == IF T = {} THEN 0 ELSE LET x == CHOOSE x \in T : TRUE IN f[x] + S2(T \ {x}) IN S2(S)
 
 TraceInit ==
   /\ l = 1
@@ -56,8 +55,8 @@ TWork  == IsEvent("work") /\ Work(EvTask) /\ ResultOf(EvTask).k = Ev.r
 TSent  == IsEvent("sent") /\ End(EvTask) /\ ResultOf(EvTask).k = Ev.r
 TPoll  == /\ IsEvent("poll") /\ pc = "loop" /\ todo = <<>>
           /\ done = Ev.done /\ total = Ev.total
-          /\ Sum([f \in Files |-> Cardinality(inEdges[f])], Files) = Ev.edges
-          /\ Sum(outCnt, Files) = Ev.counts
+          /\ SumOver([f \in Files |-> Cardinality(inEdges[f])], Files) = Ev.edges
+          /\ SumOver(outCnt, Files) = Ev.counts
           /\ Cardinality(finished) = Ev.fin
           /\ UNCHANGED vars
 TRecv  == /\ IsEvent("recv") /\ chan # <<>> /\ Head(chan).k = Ev.r
